@@ -107,11 +107,17 @@ Proof. exists 1. vm_compute. discriminate. Qed.
 
 (** ** the conversions
 
-    RESP -> Lua -> RESP is the identity exactly on [conv_safe]: null bulk; bulk strings of
-    valid UTF-8; integers that are doubles; non-empty arrays of such values without nil. *)
+    RESP -> Lua -> RESP gives the reply back unchanged EXACTLY on [conv_safe]: the null bulk;
+    bulk strings that lossy UTF-8 decoding leaves alone (every valid UTF-8 string); integers
+    that survive the trip through a double (every |i| < 2^53, and i64::MAX through the
+    saturating cast); non-empty arrays of such values without nil. *)
 Theorem c12_conv_roundtrip :
-  forall pc f, conv_safe f = true -> exists v, resp_to_lua pc f = CVal v /\ lua_to_resp v = f.
-Proof. exact conv_roundtrip. Qed.
+  forall pc f, conv_safe f = true <-> exists v, resp_to_lua pc f = CVal v /\ lua_to_resp v = f.
+Proof. exact conv_exact. Qed.
+Theorem c12_conv_safe_leaves :
+  (forall b, utf8_valid b = true -> bulk_ok b = true) /\
+  (forall i, Z.abs i < two53 -> int_ok i = true) /\ int_ok i64_max = true.
+Proof. exact (conj bulk_ok_valid (conj int_ok_small int_ok_max)). Qed.
 
 Definition back (pc : bool) (f : frame) : option frame :=
   match resp_to_lua pc f with CVal v => Some (lua_to_resp v) | CErr => None end.
